@@ -269,6 +269,8 @@ class Run:
     def run_families(self, fams):
         global _SHM, _FAMS
         fams = [f for f in fams if f is not None]
+        for f in fams:
+            f.tier = self.tier              # visible in the forked workers
         _FAMS = dict(enumerate(fams))
         _SHM = mmap.mmap(-1, 1024 * 4096)
         plain = [(i, f) for i, f in _FAMS.items() if isinstance(f, Family)]
@@ -353,6 +355,13 @@ class Run:
             nchunk = max(1, min(len(frontier), NPROC * 4))
             chunks = [frontier[i::nchunk] for i in range(nchunk)]
             results = list(ex.map(_worker_bfs, [(idx, c) for c in chunks]))
+            if d <= 2:
+                # determinism self-test: the same transitions replayed in another worker give identical keys/outcomes
+                again = list(ex.map(_worker_bfs, [(idx, c) for c in chunks[:4]]))
+                for r1, r2 in zip(results, again):
+                    if [(k, e, h) for k, e, h in r1['out']] != [(k, e, h) for k, e, h in r2['out']] or r1['outcomes'] != r2['outcomes']:
+                        raise HarnessError('nondeterministic transition replay in BFS family %s' % fam.name)
+                self.selftest['bfs_transitions_replayed_twice'] = self.selftest.get('bfs_transitions_replayed_twice', 0) + sum(r['ntrans'] for r in again)
             new = []
             cand = []
             for r in results:
